@@ -6,7 +6,7 @@
 From Coq Require Import List Arith Bool.
 From MM Require Import lib.ListSet model.DesignStore proofs.DesignStoreProofs.
 Import ListNotations.
-From MM Require Import gen.Gen_HeapDict gen.Gen_Exhaustive gen.Gen_Greedy proofs.ExhaustiveBridge proofs.GreedyBridge.
+From MM Require Import gen.Gen_HeapDict gen.Gen_Exhaustive gen.Gen_Greedy gen.Gen_Results proofs.ExhaustiveBridge proofs.GreedyBridge proofs.ResultsBridge.
 
 (* whatever the filters keep and whatever the enumeration order: at the end of the search every
    stored design's two diagnostics objects (the one in its score and its own) hold the series
@@ -53,3 +53,19 @@ Theorem C04_translated_greedy_search_designs_own_their_diagnostics :
     snd d = snd (fst d) /\ fst (fst d) = gkey (fst (snd (fst d))) (snd (snd (fst d))).
 Proof. intros. eapply gen_greedy_designs_own_their_diag; eassumption. Qed.
 Print Assumptions C04_translated_greedy_search_designs_own_their_diagnostics.
+
+(* after the index -> ID translation of search_results (regenerated): the diagnostics object of a returned design
+   holds the series of exactly the index sets whose geo IDs the design reports, and its score is theirs *)
+Theorem C04_translated_exhaustive_results_diagnostics_match_reported_ids :
+  forall (V K G : Type) (O : vops V) (ltk : K -> K -> bool) (es : list elig) (par : spar V)
+         (shareS optB : set -> V) (bud : set -> set -> V) (score0 : set -> set -> K) (replace_inv : K -> V -> K)
+         (geo_id : nat -> G) o,
+    In o (ResultsBridge.ids_of geo_id (gen_exhaustive_search O ltk (assignments_of es) par shareS optB bud score0 replace_inv)) ->
+    fst (snd (fst o)) = map geo_id (fst (snd o)) /\ snd (snd (fst o)) = map geo_id (snd (snd o)) /\
+    fst (fst o) = stored_key O par bud score0 replace_inv (fst (snd o)) (snd (snd o)).
+Proof.
+  intros until o. intro Ho. destruct (ResultsBridge.ids_of_groups geo_id _ o Ho) as [d [Hd [H1 [H2 [H3 H4]]]]].
+  destruct (gen_exhaustive_designs_own_their_diag O ltk _ par shareS optB bud score0 replace_inv d Hd) as [E1 E2].
+  rewrite H4, E1. unfold dgroups in *. repeat split; try assumption. rewrite H3. exact E2.
+Qed.
+Print Assumptions C04_translated_exhaustive_results_diagnostics_match_reported_ids.
